@@ -101,8 +101,10 @@ def make_programs(rng, n):
     for _ in range(n // 4):
         counter = [0]
         base, cur, src, o = order_sensitive(rng, counter)
+        # half of these histories apply the call to a tree that a Processor has already processed (its transfers hold payloads)
+        processed = rng.random() < 0.5
         for bt, tr, rq in rng.sample(ALL_OPTS, 2) + [(True, False, False)]:
-            out.append((base, ("un", o, (src, bt, tr, rq), base), ("un", o, mp.DEFAULT, base)))
+            out.append((base, ("un", o, (src, bt, tr, rq), base), ("un", o, mp.DEFAULT, base), processed))
     for _ in range(n):
         counter = [0]
         if rng.random() < 0.7:
@@ -157,12 +159,25 @@ def make_cases(rng, tier):
     cases = []
     stats = {"accepted": 0, "rejected": {}, "iteration_join_refused": 0, "moved_upstream": 0, "joins": 0, "modes": {},
              "options": {}}
-    for base, a, b in make_programs(rng, n):
+    for item in make_programs(rng, n):
+        base, a, b = item[:3]
+        processed_first = len(item) > 3 and item[3]
         _wb, _rb, base_res = mp.run_build(base)
         if base_res[0] != "ok":
             continue
         _w2, rel_b, b_res = mp.run_build(b)
-        w, rel, res = mp.run_build(a)
+        if processed_first:
+            # history: build the base, process it (iteration engines only: payloads are RowSequences), then make the call
+            w = mp.World()
+            try:
+                done = mp.RealProcessor(w, None).process(mp.build_impl(base, w))
+                rel = mp.apply_un(done, a[1], a[2], w)
+                res = ("ok", enc.dtree(rel, w.reg))
+            except Exception as e:  # noqa: BLE001
+                rel, res = None, ("err", mp.exc_name(e))
+            stats["applied_to_processed_tree"] = stats.get("applied_to_processed_tree", 0) + 1
+        else:
+            w, rel, res = mp.run_build(a)
         rows, mode, err = "(Err RelAlgError)", 0, None
         if rel is not None:
             reverse = rng.random() < 0.5
@@ -189,7 +204,8 @@ def make_cases(rng, tier):
         t = enc.cresult(res[0], ctree(res[1]) if res[0] == "ok" else res[1])
         bt = enc.cresult("ok", ctree(base_res[1]))
         cases.append({
-            "json": {"program": jsonable(a), "impl": jsonable(res), "rows": rows[:2000], "error": err,
+            "json": {"program": jsonable(a), "applied_to_processed_tree": bool(processed_first), "impl": jsonable(res),
+                     "rows": rows[:2000], "error": err,
                      "root_call_accepted": b_res[0] == "ok"},
             "coq": f"BKCase {mp.cprog(a)} {mp.cenv(a)} {bt} {t} {rows} {mode}%N {cbool(b_res[0] == 'ok')}",
             "nontrivial": bool(moved), "key": mp.cprog(a), "prog": a, "impl_tree": res, "error": err, "base_tree": base_res[1]})
